@@ -3,5 +3,5 @@ CONSTANTS LeafVals = {0, 1, 2, 3, 7}
  RhsVals = {0, 1, 2, 3, 7}
  FullEq = TRUE
  Guarded = TRUE
-INVARIANTS TypeOK ValTotal Sound EvAgrees Laws
+INVARIANTS TypeOK ValTotal Sound EvAgrees Laws BigAgrees
 CHECK_DEADLOCK FALSE
